@@ -6,6 +6,9 @@ four booleans wandb ckpt structured delete, then `<n> b1 … bn` = per-epoch "va
 
 `trace <repaired|asis> <flags> <rounds>`  →  `ok e1 e2 …`          (events, see `Event.str`)
 `fs    <repaired|asis> <flags> <rounds>`  →  `ok s0 | s1 | … | sN` (file system at every crash point, `-` = empty)
+`tracer <repaired|asis> <flags2> <rounds2>`                   →  events of a run with use_existing_chunks (run 2)
+`fsr    <repaired|asis> <flags1> <rounds1> <flags2> <rounds2>` →  file system at every crash point of run 2,
+                                                                  starting from what run 1 (`run1Flags flags1`) left
 -/
 open SleapVerif SleapVerif.Proto SleapVerif.TrainTrace
 
@@ -24,6 +27,25 @@ def pFw : P Framework := do
   let t ← tok
   if t = "torch_dataset" then pure .torchDataset
   else if t = "torch_dataset_np_chunks" then pure .npChunks else failure
+
+def pFlagsRounds : P (Flags × List Bool) := do
+  let m ← pModel
+  let fw ← pFw
+  let w ← Proto.bool
+  let c ← Proto.bool
+  let s ← Proto.bool
+  let d ← Proto.bool
+  let r ← listOf Proto.bool
+  pure (⟨m, fw, w, c, s, d⟩, r)
+
+def pCase2 : P (Version × (Flags × List Bool) × (Flags × List Bool)) := do
+  let v ← pVersion
+  let a ← pFlagsRounds
+  let b ← pFlagsRounds
+  pure (v, a, b)
+
+def showStates (states : List FS) : String :=
+  "ok " ++ " | ".intercalate (states.map fun fs => let s := fs.str; if s = "" then "-" else s)
 
 def pCase : P (Version × Flags × List Bool) := do
   let v ← pVersion
@@ -50,6 +72,15 @@ def handle (line : String) : String :=
         let s := (fsAt l n).str
         if s = "" then "-" else s
       "ok " ++ " | ".intercalate states
+    | none => "bad-op"
+  | "tracer" :: rest =>
+    match runP pCase rest with
+    | some (v, f, r) => "ok " ++ " ".intercalate ((traceR v f r).map Event.str)
+    | none => "bad-op"
+  | "fsr" :: rest =>
+    match runP pCase2 rest with
+    | some (v, (f1, r1), (f2, r2)) =>
+      showStates ((List.range ((traceR v f2 r2).length + 1)).map fun n => fsReuseAt v f1 r1 f2 r2 n)
     | none => "bad-op"
   | _ => "bad-op"
 
